@@ -1,5 +1,5 @@
 # replay of a bounded stand-in violation (C14): re-run native/c14_io.py
 import sys
-print("blackbird Del: loading what was saved raised KeyError: 'parentCtx'")
+print('blackbird Xgate.H: command 0 (Xgate): dagger=True loaded as dagger=False')
 print('REPLAY-VIOLATION')
 sys.exit(1)
